@@ -18,7 +18,7 @@ func init() {
 		Level: "exploration",
 		Rule: "random and swept packet models (header cross product, every subset of the 5 optional adaptation parts x 3 extension parts, boundary biased field values and lengths) " +
 			"encoded by the reference codec and parsed with NextPacket; the same models written with Muxer.WritePacket and compared byte for byte; parsed packets re-emitted; " +
-			"distinct = hash of the 188 reference bytes; non-trivial = packet has an adaptation field or a non-default header flag",
+			"plus 100 000+ packet streams whose packets are kept for 1024 further calls, compared with the stream bytes and written back (stage endurance); distinct = hash of the 188 reference bytes; non-trivial = packet has an adaptation field or a non-default header flag",
 		Assumptions: []string{"reference = refts/packet.go written from ISO 13818-1 2.4.3.2-2.4.3.5 and anchored by hand-assembled header bytes in the self check",
 			"the struct's write contract is the one documented on its fields (Length ignored, StuffingLength requested, IsOneByteStuffing for the 1 byte form, TransportPrivateDataLength = len)",
 			"IsOneByteStuffing is not part of the TS format and is ignored when comparing parsed packets",
@@ -239,6 +239,13 @@ func fieldOf(d string) string {
 }
 
 func runC11(c *mon.Ctx) {
+	// endurance: packets of a long stream kept for a while and then written back (the re-emission clause over long runs)
+	for i := int64(0); i < c.Pick(2, 12); i++ {
+		if c.Mine("endurance", i) {
+			r := c.Rng("endurance", i)
+			heldPacketsCase(c, "C11", "endurance", i, r, int(c.Pick(100000, 400000))+r.IntN(5000), 1024, true)
+		}
+	}
 	// stage pids: every PID x rotating rest of the header, payload only
 	for pid := int64(0); pid < 8192; pid++ {
 		if !c.Mine("pids", pid) {
